@@ -256,7 +256,9 @@ Definition worker_run (fuel : nat) (p : program) (s : sim) : sim :=
   end.
 
 (* ---- commands issued at quiescence ---- *)
-Inductive cres := ResOk | ResRefused.
+(* ResRaised: the command let an exception of the model code escape (construct_model
+   failing inside initialize) *)
+Inductive cres := ResOk | ResRefused | ResRaised.
 
 Definition start_checks (s : sim) : bool :=
   negb (running s)
@@ -323,8 +325,14 @@ Definition do_init (p : program) (s : sim) (r : repl) : sim * cres :=
     let s1 := match worker s0 with WNone => s0 | _ => do_cleanup s0 end in
     let s2 := set_created [] (set_clock (r_start r) (set_rep (Some r) (set_worker WAlive s1))) in
     let '(s3, failed) := exec_actions InConstruct s2 (body p 0) in
-    let s4 := if failed then raise_flag s3 else s3 in
-    let s5 := set_ps PInit (set_rs RInit s4) in
+    if failed then
+      (* construct_model raised: initialize is aborted right there.  Run and replication state are
+         what cleanup left or what a fresh / cleaned-up simulator has (not initialised: in every
+         reachable state without a worker both states are NOT_INITIALIZED), the new worker thread lives, the clock is at the start,
+         what the construct body scheduled before its failure point stays pending, no warm-up event. *)
+      (set_ps PNotInit (set_rs RNotInit s3), ResRaised)
+    else
+    let s5 := set_ps PInit (set_rs RInit s3) in
     let s6 := if r_warm r <? clock s5 then raise_flag s5
               else let e := mkEv (r_warm r) 10 (nid s5) HWarm 0 in
                    set_nid (nid s5 + 1) (set_pend (ins e (pend s5)) s5) in
